@@ -3,6 +3,7 @@ import OrsoVerif.Lemmas.RowBytes
 import OrsoVerif.Lemmas.MsgPackRoundtrip
 import OrsoVerif.Lemmas.RowStream
 import OrsoVerif.Lemmas.MsgPackSound
+import OrsoVerif.Lemmas.RowFns
 /-!
 # C01 — Row byte format is lossless and self-delimiting
 
@@ -18,6 +19,63 @@ variable {α : Type}
 
 /-- Byte strings (the two models use the same type). -/
 abbrev Bytes := List UInt8
+
+/-! ## The functions the theorems are about are the code of the working tree
+
+`Gen.RowFns.from_bytes_cython` and `Gen.RowFns.as_bytes_frame` are translated statement by statement from
+compiled.pyx / orso/row.py on every run (harness/extractors/c01_fns.py). -/
+
+/-- The OR/shift arithmetic of `record_size` as written in compiled.pyx:51-56 (inside the translation)
+is the fold over the extracted `(offset, shift)` list the framing lemmas use. -/
+theorem recordSize_expr (data : Bytes) :
+    recordSize data = cInt32 (((((byteAt data 2) <<< 24) ||| ((byteAt data 3) <<< 16)) ||| ((byteAt data 4) <<< 8)) ||| (byteAt data 5)) := by
+  simp [recordSize, Gen.Row.lengthField, List.foldl]
+
+/-- **The decoder of every theorem below is `from_bytes_cython` as written**: the statement-level
+translation (guards with their `or`, operators, mask and value; the `record_size` arithmetic; the two
+`DataError` texts; `unpackb(data[HEADER_SIZE:])`; the `cdef list` cast; the loop with the reserved-form
+test and `datetime.fromtimestamp(item[1])`; the returned tuple) computes `decodeRow` on every buffer. -/
+theorem generated_from_bytes_eq_model (data : Bytes) :
+    Gen.RowFns.from_bytes_cython data = decodeRow data := by
+  unfold Gen.RowFns.from_bytes_cython decodeRow decodeWith
+  rw [checkFrame_eq, ← recordSize_expr]
+  simp only []
+  by_cases h1 : ((data.length : Nat) : Int) < 14
+  · simp [h1]
+  · by_cases h2 : (byteAt data 0 &&& 240) ≠ 16
+    · simp [h1, h2]
+    · by_cases h3 : recordSize data ≠ ((data.length : Nat) : Int) - 14
+      · simp [h1, h2, h3]
+      · have h1' : ¬ ((data.length : Nat) : Int) < ((14 : Nat) : Int) := h1
+        have h3' : ¬ recordSize data ≠ ((data.length : Nat) : Int) - ((14 : Nat) : Int) := h3
+        rw [if_neg (by simp only [not_or]; exact ⟨h1', h2⟩), if_neg h3', if_neg h1, if_neg h2, if_neg h3]
+        simp only [unpackRow]
+        cases hu : unpackb (List.drop 14 data) with
+        | none => simp [castList]
+        | some v =>
+          cases v with
+          | list xs =>
+            simp only [castList, post_step]
+            rw [foldl_bind_mapM]
+            cases xs.mapM post with
+            | none => rfl
+            | some ys => simp
+          | _ => simp [castList]
+
+/-- **The framing of every theorem below is `Row.as_bytes` as written** (after `packb` and the clock):
+the cap test and the returned `+` chain with both `to_bytes` calls compute `encodeFrame`. -/
+theorem generated_as_bytes_eq_model (ts : Nat) (payload : Bytes) :
+    Gen.RowFns.as_bytes_frame ts payload = encodeFrame ts payload := by
+  unfold Gen.RowFns.as_bytes_frame encodeFrame
+  rw [frameDecision_eq, frameBytes_eq]
+  simp only [Gen.Row.maxRecord, intToBytes, pow_consts.1, pow_consts.2.1]
+  by_cases h : payload.length > 16777216
+  · simp [h]
+  · by_cases h4 : payload.length ≥ 4294967296
+    · omega
+    · by_cases h8 : ts ≥ 18446744073709551616
+      · simp [h, h4, h8, catBytes]
+      · simp [h, h4, h8, catBytes, header, toBytes, Gen.Row.bigEndian, Gen.Row.lenWidth, Gen.Row.tsWidth]
 
 /-! ## Framing -/
 
@@ -314,6 +372,40 @@ theorem decoded_reencodes (data : Bytes) (items : List Item) (h : decodeRow data
                 rw [hu]
               · cases hpk
 
+/-! ## The property, stated of the translated code
+
+The same clauses with `Gen.RowFns.as_bytes_frame` (what `Row.as_bytes` does with the packed row and the
+clock) and `Gen.RowFns.from_bytes_cython` (the decoder as written) in place of the model's functions. -/
+
+/-- **Round trip and acceptance, of the code as written**: whatever the translated `as_bytes` emits for the
+packed form of a row without reserved items, the translated `from_bytes_cython` turns back into that row. -/
+theorem code_roundtrip (ts : Nat) (row : List PyVal) (p r : Bytes) (hp : packRow row = some p)
+    (h : Gen.RowFns.as_bytes_frame ts p = .ok r) (hr : NoReserved row) :
+    Gen.RowFns.from_bytes_cython r = .ok (row.map Item.val) := by
+  rw [generated_as_bytes_eq_model] at h
+  rw [generated_from_bytes_eq_model]
+  apply row_roundtrip ts row r _ hr
+  unfold encodeRow encodeWith
+  rw [hp]
+  exact h
+
+/-- **Torn, extended and header-altered records are rejected with a data error, of the code as written**:
+every strict prefix, every non-empty extension, every other version nibble and every other length field of
+a record the translated `as_bytes` emits makes the translated `from_bytes_cython` raise `DataError`. -/
+theorem code_alterations_rejected (ts : Nat) (p r : Bytes) (h : Gen.RowFns.as_bytes_frame ts p = .ok r) :
+    (∀ k, k < r.length → ∃ e, Gen.RowFns.from_bytes_cython (r.take k) = .error e ∧ e.isDataError = true) ∧
+    (∀ s, s ≠ [] → Gen.RowFns.from_bytes_cython (r ++ s) = .error .badLength) ∧
+    (∀ b : UInt8, (b.toNat &&& 240) ≠ 16 → Gen.RowFns.from_bytes_cython (r.set 0 b) = .error .malformed) ∧
+    (∀ l0 l1 l2 l3 : UInt8, [l0, l1, l2, l3] ≠ (r.drop 2).take 4 →
+      Gen.RowFns.from_bytes_cython (r.take 2 ++ [l0, l1, l2, l3] ++ r.drop 6) = .error .badLength) := by
+  rw [generated_as_bytes_eq_model] at h
+  simp only [generated_from_bytes_eq_model]
+  refine ⟨fun k hk => ?_, fun s hs => ?_, fun b hb => ?_, fun l0 l1 l2 l3 hne => ?_⟩
+  · exact torn_rejected unpackRow ts p r h k hk
+  · exact extended_rejected unpackRow ts p r s h hs
+  · exact version_altered_rejected unpackRow ts p r h b hb
+  · exact length_altered_rejected unpackRow ts p r h l0 l1 l2 l3 hne
+
 /-! ## Arbitrary buffers: the decoder's outcome is one of four, each with its exact cause -/
 
 /-- **Every buffer either decodes to a row or is rejected, and nothing else can happen**: for an
@@ -487,5 +579,25 @@ example : isReserved (.list [.str "__datetime__", .none]) = true ∧
     isReserved (.list [.bytes [95], .int 1]) = false ∧
     isReserved (.list [.list [.str "__datetime__", .int 1]]) = false ∧
     isReserved (.dict [("__datetime__", .int 1)]) = false := by decide
+
+/-- The range of `datetime.fromtimestamp` in the model: exactly at and one past each bound, ints and floats
+(0xc22cef214b000000 = -62135510400.0, 0x424d7ffa20bfffff = the last double below 253402300800.0). -/
+example : fromtimestamp (some (.int (-62135510400))) = some (.datetime (.int (-62135510400))) ∧
+    fromtimestamp (some (.int (-62135510401))) = none ∧
+    fromtimestamp (some (.int 253402300799)) = some (.datetime (.int 253402300799)) ∧
+    fromtimestamp (some (.int 253402300800)) = none ∧
+    fromtimestamp (some (.float 0xc22cef214b000000)) = some (.datetime (.float 0xc22cef214b000000)) ∧
+    fromtimestamp (some (.float 0xc22cef214b000001)) = none ∧
+    fromtimestamp (some (.float 0x424d7ffa20bfffff)) = some (.datetime (.float 0x424d7ffa20bfffff)) ∧
+    fromtimestamp (some (.float 0x424d7ffa20c00000)) = none ∧
+    fromtimestamp (some (.float 0x7ff8000000000000)) = none ∧ fromtimestamp (some (.float 0xfff0000000000000)) = none ∧
+    fromtimestamp (some (.str "0")) = none ∧ fromtimestamp none = none := by decide
+
+/-- The translated functions on a concrete row: emitted, decoded back, torn and extended. -/
+example :
+    (Gen.RowFns.as_bytes_frame 7 [0x92, 0x01, 0xa1, 0x61]).toOption.map (fun r =>
+      ((Gen.RowFns.from_bytes_cython r).toOption, (Gen.RowFns.from_bytes_cython (r.take 17)).toOption,
+        (Gen.RowFns.from_bytes_cython (r ++ [0])).toOption, r.length))
+      = some (some [.val (.int 1), .val (.str "a")], none, none, 18) := by decide
 
 end C01
